@@ -248,7 +248,8 @@ def run(ctx):
              for k, s in enumerate(DEGENERATE)]
     nofinal = [(n + '/nofinalnl', s.rstrip(b'\n'), d, v) for (n, s, d, v) in cases[::50]]
     crlf = [(n + '/crlf', s.replace(b'\n', b'\r\n'), d, v) for (n, s, d, v) in cases[::50] if b'--[[m' not in s]
-    judge(ctx, degen + nofinal + crlf, (2,))
+    fxcrlf = [(n + '/crlf', s.replace(b'\r\n', b'\n').replace(b'\n', b'\r\n'), d, v) for (n, s, d, v) in fx if n.endswith('~0')]
+    judge(ctx, degen + nofinal + crlf + fxcrlf, (2,))
     muts = mutated_inputs(ctx, rnd, cases + fx, 400 if ctx.quick else 4000)
     no_silent_loss(ctx, muts + [('newer%d' % k, s) for k, s in enumerate(NEWER)] + [(n, s) for n, s, _, _ in cases[::40]])
     ctx.evaluations += len(cases) + len(muts)
